@@ -181,7 +181,8 @@ sp_ctrsv(char *uplo, char *trans, char *diag, SuperMatrix *L,
 		    for (i = 0; i < nrow; ++i, ++iptr) {
 			irow = L_SUB(iptr);
 			c_sub(&x[irow], &x[irow], &work[i]); /* Scatter */
-			work[i] = comp_zero;
+			work[i].r = 0.0; /* not comp_zero: it is used as a scratch */
+			work[i].i = 0.0; /* variable by the products above      */
 
 		    }
 	 	}
